@@ -658,7 +658,8 @@ func (e *connectWireError) toConnectError() *connect.Error {
 	}
 	cerr := connect.NewError(code, errors.New(e.Message))
 	for _, detail := range e.Details {
-		detailData, err := base64.RawStdEncoding.DecodeString(detail.Value)
+		// Readers must accept base64 with and without padding.
+		detailData, err := base64.RawStdEncoding.DecodeString(strings.TrimRight(detail.Value, "="))
 		if err != nil {
 			// seems a waste to fail or take other action here...
 			// TODO: maybe we should instead *replace* this detail with a placeholder that
